@@ -128,7 +128,7 @@ def run(prop, mod, repo):
         from sa.selftest import bulk
         C_READERS = {'C05', 'C06', 'C07', 'C08', 'C10', 'C12', 'C13', 'C19', 'C20'}
         for kind in bulk.KINDS:
-            if kind == 'crename' and prop not in C_READERS:
+            if kind in ('crename', 'cflip') and prop not in C_READERS:
                 continue
             root = os.path.join(base, 'bulk-%s' % kind)
             _copy_tree(repo, root)
